@@ -6,7 +6,7 @@ P=$1; NAME=${2:-$1-1}; WT=/tmp/wt-$P; OUT=/verif/seeded/$NAME
 [ -f $WT/.seed/patch.diff ] || { echo "no patch in $WT/.seed"; exit 2; }
 mkdir -p $OUT
 cp $WT/.seed/* $OUT/ 2>/dev/null
-DEMO=$(python3 -c "import json;print(json.load(open('$WT/.seed/meta.json'))['demo_cmd'])")
+DEMO=$(python3 -c "import json,re;print(re.sub(r'\s+\([^()]*\)\s*$','',json.load(open('$WT/.seed/meta.json'))['demo_cmd']))")
 export CARGO_TARGET_DIR=$WT/target CARGO_NET_OFFLINE=true
 cd $WT
 git checkout -q -- . ; 
